@@ -96,6 +96,25 @@ func c19Script(r *rand.Rand) (string, map[string]interface{}) {
 		sub[fmt.Sprintf("s%d", r.Intn(20))] = r.Intn(9)
 	}
 	m["sub"] = sub
+	if r.Intn(3) == 0 {
+		// maps that contain each other, reachable from the document at several points (what
+		// the script sees of such a cycle must not depend on which entry is converted first)
+		ring := make([]map[string]interface{}, 2+r.Intn(3))
+		for i := range ring {
+			ring[i] = map[string]interface{}{"n": fmt.Sprintf("ring%d", i)}
+		}
+		for i := range ring {
+			ring[i]["peer"] = ring[(i+1)%len(ring)]
+			if r.Intn(2) == 0 {
+				ring[i]["back"] = ring[(i+len(ring)-1)%len(ring)]
+			}
+			m[fmt.Sprintf("r%d", i)] = ring[i]
+		}
+		sub["ring"] = ring[r.Intn(len(ring))]
+		if r.Intn(2) == 0 {
+			m["shared1"], m["shared2"] = sub, sub
+		}
+	}
 	return b.String(), map[string]interface{}{"M": m, "I1": r.Intn(100)}
 }
 
